@@ -21,7 +21,7 @@ RULE = (
 ASSUMPTIONS = [
     "tolerance 1e-9 relative to the largest entry (measured floor 4e-16); translations 1e-9*(1+|t|/span) for cancellation",
     "similarity scaling of rotation rates (omega*k_v, omega/k) accompanies speed and length scaling",
-    "sideslip only without symmetric surfaces",
+    "sideslip without symmetric surfaces, or with symmetric surfaces in incompressible cases (LiftDrag documents the x2 convention); compressible + symmetric + sideslip is NOT generated: x/z translation changes the results there on the unchanged tree, untriaged (DESIGN.md 12.3)",
     "ground effect only with the incompressible solver (compressible + groundplane raises at setup: unsupported combination)",
 ]
 
